@@ -16,7 +16,9 @@ def translate(mesh : Mesh, tr : Vec) -> Mesh:
         Mesh: the translated mesh
     """
     for i in mesh.id_vertices:
-        mesh.vertices[i] += tr
+        # rebind instead of `+=`: an in-place update would also move every mesh / array sharing this vector's memory
+        # (and fails on integer coordinates)
+        mesh.vertices[i] = mesh.vertices[i] + tr
     return mesh
 
 def rotate(mesh : Mesh, rot : Rotation, orig : Vec = None) -> Mesh:
